@@ -136,6 +136,8 @@ type runResult struct {
 
 func hexs(b string) string { return hex.EncodeToString([]byte(b)) }
 
+func quietly(f func()) { rt.Quiet(f) }
+
 func strHash(s string) uint64 {
 	h := uint64(14695981039346656037)
 	for i := 0; i < len(s); i++ {
@@ -421,7 +423,7 @@ func (x *runCtx) execOp(tc *taskCtx, opi int, op Op) {
 		r.calmable = true
 	default:
 		r.key = fmt.Sprintf("%d|%s|%s|%s|%s", a.Ver(), op.K, hexs(before), op.S, op.S2)
-		r.calmable = true
+		r.calmable = a.PtrFree() // a value with pointers inside cannot be rebuilt from its bytes
 	}
 	if !(out.fault && page.contains(out.faultAddr)) {
 		tc.recs = append(tc.recs, r) // a fault on the protected page is O2(c)'s verdict, not a result
@@ -704,7 +706,12 @@ func runPlan(p *Plan, trace bool, collectCover bool) *runResult {
 	page.protect()
 	wantPairs := p.Prop == "C07" || p.Prop == "C02" || p.Prop == "C09"
 
-	sim := rt.New(p.simConfig(trace), nPoints, collectCover)
+	cfg := p.simConfig(trace)
+	if cfg.MaxPoints <= 0 {
+		// only there to end runs in which a library call never finishes
+		cfg.MaxPoints = 400000 + 20000*int64(p.nOps())
+	}
+	sim := rt.New(cfg, nPoints, collectCover)
 	x.sim = sim
 	for ti := range p.Tasks {
 		tc := &taskCtx{id: ti}
